@@ -17,8 +17,10 @@
                        response becomes the `fresh_body` the JSON patch is computed and TESTED against
       `jsonPatch f`  — `ops = as_json_patch(fresh_body)`; no ops → nothing sent; else
                        `[test /metadata/resourceVersion] + ops`: applied iff the version is unchanged,
-                       otherwise (or with an injected 422, `f = true`) HTTP 422 and ALL fns go to
-                       `memory.remaining_patch`
+                       otherwise (or with an injected 422, `f = true`) HTTP 422; of the rejected fns
+                       `process_resource_event` keeps in `memory.remaining_patch` only those that are
+                       not the framework's own finalizer edits (`_is_finalizer_fn`) — i.e. none of the
+                       fns of this model (repair 1c8f3dd; before it ALL fns were carried)
     Environment labels: `editFins` (foreign finalizer edit; never touches the own finalizer),
     `mark` (deletion request), `toggleDel`/`toggleDmn` (label edits that switch the matching of the
     mandatory deletion handler / of the daemon), `handlerFinishes`, `daemonExits`, `restart`.
@@ -51,6 +53,12 @@ inductive Fn where
 def Fn.apply (own : String) : Fn → List String → List String
   | .block, l => blockDeletion own l
   | .allow, l => allowDeletion own l
+
+/-- `_is_finalizer_fn`: `isinstance(fn, functools.partial) and fn.func in (block_deletion, allow_deletion)`. -/
+def ownFns : List Fn := [Fn.block, Fn.allow]
+
+/-- `carried_fns = [fn for fn in remaining_patch.fns if not _is_finalizer_fn(fn)]` -/
+def carry (fns : List Fn) : List Fn := fns.filter (fun f => !ownFns.contains f)
 
 /-- `for fn in self.fns: fn(body_to_be)` of `Patch.as_json_patch`. -/
 def applyFns (own : String) (fns : List Fn) (l : List String) : List String :=
@@ -147,7 +155,7 @@ structure State where
   delDone : Bool         -- the matching mandatory deletion handlers have finished (success/permanent failure)
   dmnLive : Bool         -- a daemon/timer task of this object runs (neither exited nor abandoned)
   dmnForever : Bool      -- memory.daemons_memory.forever_stopped covers the daemon
-  mem : List Fn          -- memory.remaining_patch (only fns are ever carried)
+  mem : List Fn          -- memory.remaining_patch.fns (stays empty: the own finalizer edits are not carried)
   pending : Option Pending
   deriving DecidableEq, Repr
 
@@ -210,7 +218,7 @@ def stepJson (own : String) (s : State) (forced : Bool) : Option State :=
     if p.merge then none else
     let target := applyFns own p.fns p.view
     if target = p.view then some { s with pending := none, mem := [] }          -- no ops, no request
-    else if forced || s.rv != p.rvTest then some { s with pending := none, mem := p.fns }   -- 422
+    else if forced || s.rv != p.rvTest then some { s with pending := none, mem := carry p.fns }   -- 422
     else some { s with fins := target, rv := s.rv + 1, pending := none, mem := [],
                        gone := s.marked && target.isEmpty }
   | none => none
@@ -255,12 +263,11 @@ inductive Reach (own : String) : State → Prop where
   | init {s} : Init s → Reach own s
   | step {s l s'} : Reach own s → step own s l = some s' → Reach own s'
 
-/-- The guard of `never_early_partial`: the two ways a stale removal decision reaches the server.
-(G1) no JSON patch that carries a removal is rejected (so no removal is ever carried over);
-(G2) when a removal is queued, no foreign write slips in before the cycle's own merge patch
-     (whose response re-bases the `test`). -/
+/-- The guard of `never_early_partial`: the one way a stale removal decision still reaches the server
+(finding F5b). When a removal is queued, no foreign write slips in between the decision and the
+cycle's own merge patch (whose response re-bases the `test`). Every other label is unconstrained:
+in particular any number of genuine or injected HTTP 422. -/
 def Guard (s : State) : Label → Prop
-  | .jsonPatch forced => ∀ p, s.pending = some p → (forced = true ∨ s.rv ≠ p.rvTest) → Fn.allow ∉ p.fns
   | .mergePatch => ∀ p, s.pending = some p → Fn.allow ∈ p.fns → s.rv = p.rvTest
   | _ => True
 
